@@ -88,3 +88,15 @@ package interp
 //@   invariant within-the-names: 0 <= i && i <= n.nleft
 //@   invariant earlier-names-have-a-global-symbol: forall(k, 0, i, has(sc.sym, n.child[k].ident) && sc.sym[n.child[k].ident] != nil && sc.sym[n.child[k].ident].global)
 //@   after every-name-has-a-global-symbol: forall(k, 0, n.nleft, has(sc.sym, n.child[k].ident) && sc.sym[n.child[k].ident] != nil && sc.sym[n.child[k].ident].global)
+
+// cfg, definition or assignment that (re)types a symbol: the symbol takes the type the type check gave the
+// destination, and the frame layout follows for EVERY slot of the frame — slot 0, the first global ever
+// allocated, included (the global types pass only guesses slot types: `a > b` as the operand's type).
+//@ lit Interpreter.cfg if:updateSym () ()
+//@   props C11
+//@   opt safety = off
+//@   opt opaque-calls = *
+//@   opt opaque-havoc = none
+//@   requires [assume] sym != nil && dest != nil && src != nil && sc != nil && dest.typ != nil && sym.index < len(sc.types)
+//@   ensures symbol-takes-the-checked-type: updateSym ==> sym.typ == dest.typ
+//@   ensures frame-layout-follows-for-every-slot: updateSym && sym.index >= 0 ==> sc.types[sym.index] == dest.typ.frameType()
